@@ -31,6 +31,8 @@ func checkC13(c *Ctx) {
 	c.checkPanicCensus()
 	c.checkValidatorInitialised()
 	c.checkDerefOfNullableResult()
+	// a request whose in-flight slot is never released blocks every later request of the session
+	c.checkInflightPairing()
 }
 
 // ---------------------------------------------------------------------------------------------
